@@ -53,7 +53,7 @@ pub struct Device {
 
 use DisabledOptions::*;
 
-use crate::instruction::operation::Operation;
+use crate::instruction::{operation::Operation, register::Reg16};
 
 impl Device {
     pub fn new(flash_size: u32) -> Self {
@@ -105,6 +105,15 @@ impl Device {
                 }
             }
             _ => true,
+        }
+    }
+
+    /// Whether the device has the given index (pointer) register
+    pub fn allow_index(&self, r: Reg16) -> bool {
+        match r {
+            Reg16::X => self.allow(NoXreg),
+            Reg16::Y => self.allow(NoYreg),
+            Reg16::Z => true,
         }
     }
 
